@@ -163,9 +163,10 @@ Definition spec_ok (c : case) (o : out) : bool :=
       | _, _ => false
       end
   | CArities fx vr ps =>
-      let s := shift_sig (mk_sig fx vr) (n_partial ps) in
+      let s := mk_sig fx vr in
       match o with
-      | OArities ints r => list_eqb N.eqb ints (as_set (all_counts s)) && Bool.eqb r (is_variadic s)
+      | OArities ints r =>
+          list_eqb N.eqb ints (as_set (shift_counts (all_counts s) (n_partial ps))) && Bool.eqb r (is_variadic s)
       | _ => false
       end
   | CRecur fx vr ar vs =>
@@ -200,36 +201,16 @@ Definition out_eqb (a b : out) : bool :=
   | _, _ => false
   end.
 
-(** defect tags (computed from the case alone; 0 = none):
+(** defect tags of the OPEN findings (computed from the case alone; 0 = none):
     1  F-08d  apply through the Var of a variadic fn (eager)
-    2  F-08a  recur into the variadic arity with a last value that is not a non-empty finite ISeq
-              (nil, vector, infinite lazy seq)
-    4  F-08b  recur in a FIXED arity of a fn that also has a variadic arity, last value an ISeq
-    8  F-08c  partial's `arities` attribute loses the arity 0 *)
-Definition is_iseq (v : rval) : bool := match v with VSeq _ | VInf => true | _ => false end.
-
-Definition recur_safe (s : sig) (ar : arity) (vs : list rval) : bool :=
-  match ar with
-  | AFix _ => negb (is_variadic s) || negb (is_iseq (last vs VNil))
-  | ARest _ => match last vs VNil with VSeq _ => true | _ => false end
-  end.
-
-Definition partial_report_ok (s : sig) (p : nat) : bool :=
-  negb (existsb (Nat.eqb p) (all_counts s))
-  && match variadic s with Some m => p <? m | None => true end.
-
-Fixpoint layers_ok (s : sig) (ps : list N) : bool :=
-  match ps with
-  | [] => true
-  | p :: r => partial_report_ok s (nat_of p) && layers_ok (shift_sig s (nat_of p)) r
-  end.
-
+    2  F-08e  recur into the variadic arity with a last value that is neither nil nor a finite
+              ISeq (a vector, an infinite lazy seq)
+    The repaired findings F-08a/b/c have no tag: the model follows the source through the
+    regenerated flags, so a reverted repair shows as impl = model <> spec with no open finding
+    to explain it. *)
 Definition tag (c : case) : N :=
   match c with
   | CCall fx vr _ _ (ShApply true _ _) => if is_variadic (mk_sig fx vr) then 1 else 0
-  | CRecur fx vr ar vs =>
-      if recur_safe (mk_sig fx vr) (arity_of_code ar) vs then 0
-      else match arity_of_code ar with ARest _ => 2 | AFix _ => 4 end
-  | CArities fx vr ps => if layers_ok (mk_sig fx vr) ps then 0 else 8
+  | CRecur fx vr ar vs => if recur_safe (arity_of_code ar) vs then 0 else 2
   | _ => 0
   end%N.
